@@ -2102,7 +2102,10 @@ fn audit() -> serde_json::Value {
        "covered": "canonical field-by-field rendering of the parsed Command (both parsers); reply AND keyspace with remaining PTTL at four instants for direct / pcall / call; exact error texts; the exact shape of the error redis.call raises (found: mangled by mlua, C16:lua:call-error-text-mangled)",
        "open": "the translator's Command itself is private (observed through its effect)"},
       {"class": 10, "topic": "finding signatures", "covered": "every recorded signature fires only for inputs the model of the current code predicts (tables synced with Lean by LT ops; lua_error_alphabet, lua_unknown_iff_not_in_luaTable, lua_rejects_accepted_only_on)", "open": ""},
-      {"class": 11, "topic": "harness fragility", "covered": "the source files are read from the tree the binary was built against (path taken from harness/Cargo.toml at compile time, not a hard-coded /repo); a failed source scan is itself a violation (C16:coverage:source-scan-failed); duplicate frames are skipped, not fatal", "open": ""}
+      {"class": 11, "topic": "harness fragility", "covered": "the source files are read from the tree the binary was built against (path taken from harness/Cargo.toml at compile time, not a hard-coded /repo); a failed source scan is itself a violation (C16:coverage:source-scan-failed); duplicate frames are skipped, not fatal", "open": ""},
+      {"class": "session-3", "topic": "extensions (task B) against the same classes",
+       "covered": "1: every match arm of the three grammars is TRANSLATED into a shape descriptor and compared with the model's row and with the other RESP parser (a new arm / option arm / guard / literal is a table diff even when no generated frame reaches it); multi-statement scripts (redis.call / redis.pcall mixed, refused / unknown / bad-argument / empty statements, KEYS / ARGV references, nested return tables) generated from the modelled script language. 3 and 5: the integer literals of a differing descriptor and of the arm's conditions (arity bounds, capacity thresholds of extra guards) drive a search with element counts just below / at / above each. 7: effects of earlier statements after a raising one, statements after it. 9: the number of completed statements of a script (trace markers), the exact reply of an EVAL that ends in a raised error (code-word rule), per-field source descriptors incl. every condition and literal of every arm. 10: a nil inside the reply of a translator command has its own signature (the model proves there is none). 11: unread source syntax is `?` = reported unless reviewed (C16:source:shape-not-recognised), too few rows = C16:source:shape-scan-failed; the embedded copy of the model's shape table is compared with the live model on every run",
+       "open": "conditions of the finishing checks (`conds`) have no model counterpart: compared between the two RESP parsers only; Lua scripts outside the modelled shape (loops, tostring, cjson …) are not generated"}
     ])
 }
 
@@ -2242,5 +2245,5 @@ pub fn run(a: &Args) {
     cx.out.extra.insert("commands_with_parser_panic".into(), json!(cx.parse_crash));
     cx.out.extra.insert("audit".into(), audit());
     cx.out.extra.insert("redis_call_error_shape_samples".into(), json!(cx.call_error_samples));
-    cx.out.finish("case = one command frame (array of bulk strings) sent through from_resp, from_resp_zero_copy and redis.pcall on primed twin executors; drawn from (i) a fixed corpus, (ii) every command name of the three grammars x 4 letter-case modes (incl. non-ASCII characters that upper-case to ASCII) x arity 0..max+2, every option keyword in every position, every numeric slot x boundary numerals, empty / non-UTF-8 bytes in every slot, (iii) random structured frames with mutations; plus Lua value literals for lua_to_resp and float literals; distinct by frame bytes; non-trivial iff the command name is known to from_resp");
+    cx.out.finish("case = one command frame (array of bulk strings) sent through from_resp, from_resp_zero_copy and redis.pcall on primed twin executors; drawn from (i) a fixed corpus, (ii) every command name of the three grammars x 4 letter-case modes (incl. non-ASCII characters that upper-case to ASCII) x arity 0..max+2, every option keyword in every position, every numeric slot x boundary numerals, empty / non-UTF-8 bytes in every slot, (iii) random structured frames with mutations; plus Lua value literals for lua_to_resp, float and integer literals, shape-guided frames, and EVAL scripts generated from the modelled script language (distinct by source text); distinct by frame bytes; non-trivial iff the command name is known to from_resp");
 }
